@@ -199,4 +199,44 @@ def predict (threads pairs seed : Nat) : String :=
   if s.counter = 0 && quiescent s && !s.resizing && s.resizes ≥ 1 then "completed"
   else s!"stalled:counter={s.counter}"
 
+/-! ### which store operations are bracketed by `enter_tx` … `TxCounter::drop`
+
+Read off `store/src/lmdb.rs`: every operation that opens an LMDB transaction OF ITS OWN takes a
+`TxCounter` first and keeps it until that transaction is gone. -/
+inductive StoreOp
+  /-- `Store::get_ser(db, key, None)` → `get_with` on a fresh read txn -/
+  | getSer
+  /-- `Store::get_ser(db, key, Some(mode))` -/
+  | getSerMode
+  /-- `Store::exists` -/
+  | existsKey
+  /-- `Store::iter` … the `DatabaseIterator` (holds the counter until it is dropped; `body` =
+      what the thread does in between) -/
+  | iter (body : List Act)
+  /-- `Store::batch()` = `Batch::new` … `commit` / drop -/
+  | batch (body : List Act)
+  /-- `Batch::get_ser` / `exists` / `iter`: a nested read txn OF THE BATCH's write txn, no counter of
+      its own - it runs inside the batch's bracket -/
+  | batchRead
+  /-- `Batch::child` … commit / drop: a nested write txn of the batch, no counter of its own -/
+  | childBatch
+deriving Repr
+
+/-- does the operation open an LMDB transaction of its own (one that a remap of the file would
+pull the rug from under)? -/
+def StoreOp.ownTxn : StoreOp → Bool
+  | .batchRead => false
+  | .childBatch => false
+  | _ => true
+
+/-- the counter events of the operation on thread `t` -/
+def StoreOp.trace (t : Nat) : StoreOp → List Act
+  | .getSer => [.enter t, .leave t]
+  | .getSerMode => [.enter t, .leave t]
+  | .existsKey => [.enter t, .leave t]
+  | .iter body => .enter t :: body ++ [.leave t]
+  | .batch body => .enter t :: body ++ [.leave t]
+  | .batchRead => []
+  | .childBatch => []
+
 end GV.TxCount
